@@ -110,6 +110,7 @@ class Context:
             'samples': samples or [{'note': 'no cases'}],
             'known_findings_seen': [k for k, _ in self.known_hits],
             'notes': self.notes,
+            'leanchecker': getattr(self, 'leanchecker', None),
             'generated': {k: v for k, v in self.gen_info.items() if k != 'extra_targets'},
             'exhaustive': False,
         }
@@ -1531,6 +1532,18 @@ def run_C15(ctx):
                 r = sc.run(year, forms, pol)
                 r['kind'], r['scenario_seed'] = 'c02:' + kind, f'{ctx.seed}/c15/{year}/{kind}/{idx}'
                 extra.append(r)
+    # the recorded finding (known_findings.json): a whole after-tax balance converted to a Roth IRA, slightly more than
+    # the basis -- Form 8606 line 14 comes out one cent below zero through the rounded ratio of line 10; run in every
+    # year so that the finding is shown (or seen to be gone) on every run
+    for year in (2021, 2022, 2023):
+        pol, forms, on = c02_oracle.mk_scenario(f'{ctx.seed}/c15', year, 'ira', 2)
+        pol.fixed.update({'8606:you.distribution_or_roth_conversion': 'yes', '8606:you.nondeductible_contributions': '7000',
+                          '8606:you.traditional_basis': '0', '8606:you.nondeductible_contributions_next_year': '0',
+                          '8606:you.year_end_value_non_roth': '0', '8606:you.net_converted': '7012', '8606:you.part_2_needed': 'yes',
+                          f'8606:you.distributions_{year}': '0'})
+        r = sc.run(year, forms, pol)
+        r['kind'], r['scenario_seed'] = 'c02:ira-basis-cent', f'{ctx.seed}/c15/{year}/ira-basis-cent'
+        extra.append(r)
     for r in runs + extra:
         if r['exception'] is None and r['ok'] and to.nonneg_inputs(r):
             solved += 1
